@@ -415,13 +415,16 @@ func (b *bitstream) ReadAnnotations(symbolTable SymbolTable) ([]SymbolToken, err
 			b.pos - lengthOfAnnotFieldLength}
 	}
 
-	remainingAnnotationLength := b.len - lengthOfAnnotFieldLength - annotFieldLength
-
-	if remainingAnnotationLength <= 0 {
+	// What is left of the wrapper after the annotation list has to hold the annotated value,
+	// so the list must be strictly shorter than that. (Compare before subtracting: these are
+	// unsigned, and a list length beyond the wrapper would wrap around to a huge remainder.)
+	afterLength := b.len - lengthOfAnnotFieldLength
+	if annotFieldLength >= afterLength {
 		// The size of the annotations is larger than the remaining free space inside the
 		// annotation container.
 		return nil, &SyntaxError{"malformed annotation", b.pos - lengthOfAnnotFieldLength}
 	}
+	remainingAnnotationLength := afterLength - annotFieldLength
 
 	var as []SymbolToken
 	for annotFieldLength > 0 {
@@ -496,6 +499,10 @@ func (b *bitstream) validateAnnotatedValue(remainingLength uint64) error {
 			}
 
 			counter++
+			if remainingLength == 0 {
+				// The length field alone does not fit in what the wrapper has left.
+				return &SyntaxError{"annotation wrapper is too short for the enclosed value", b.pos}
+			}
 			remainingLength--
 
 			if val > math.MaxUint64>>7 {
